@@ -437,7 +437,13 @@ func monPacket(kind string, lt gopacket.LayerType, flags int, d []byte) {
 	}
 	if n6 == 1 && decoded[0] == layers.LayerTypeIPv6 { // (a nested IPv6 would be decoded into the same object)
 		p3 := gopacket.NewPacket(d, lt, gopacket.Default)
-		if l, ok := p3.Layer(layers.LayerTypeIPv6).(*layers.IPv6); ok && len(p3.Layers()) > 0 && p3.Layers()[0] == gopacket.Layer(l) {
+		m6 := 0
+		for _, x := range p3.Layers() {
+			if x.LayerType() == layers.LayerTypeIPv6 {
+				m6++
+			}
+		}
+		if l, ok := p3.Layer(layers.LayerTypeIPv6).(*layers.IPv6); ok && m6 == 1 && p3.Layers()[0] == gopacket.Layer(l) {
 			a, b := ip6R(&st.pIP6), ip6R(l)
 			lib.Stat("dlp-compared")
 			if a != b {
@@ -487,6 +493,9 @@ func wfRoundTrip(s *serSpec, l gopacket.SerializableLayer) bool {
 					return false
 				}
 			}
+		}
+		if len(s.payload) <= 65535 && len(s.payload)+totalOptLen(os) > 65535 {
+			return false // does not fit, and the serializer only switches to a jumbogram for the payload proper
 		}
 		return totalOptLen(os) <= 2048 && jumboOptsOK(os)
 	case *layers.IPv6HopByHop:
